@@ -25,7 +25,7 @@ ASSUMPTIONS = [
 ]
 
 MODES = (R.STRICT, R.REDIRECT, R.REWRITE)
-ALPHABET = ['/', 'a', 'b', '1', '.', '-', '+', ' ', 'e', u'\xe9']
+ALPHABET = ['/', 'a', 'b', '1', '0', '.', '-', '+', ' ', 'e', u'\xe9']
 
 # ---- element kinds -------------------------------------------------------
 P1_KINDS = [('lit', 'a'), ('lit', 'b-1')]
@@ -33,7 +33,7 @@ P1_KINDS += [('bind', None, op, '') for op in ('', ':', '?', '*', '+')]
 P1_KINDS += [('bind', None, op, t) for op in (':', '?', '*', '+') for t in ('str', 'unicode', 'int', 'float')]
 
 P2_KINDS = [('lit', 'a')] + [('bind', None, op, t) for op in (':', '?', '*', '+') for t in ('str', 'int')]
-P2_SEGS = ['a', 'b-1', '1', '+ 2', '1.5', u'\xe9']
+P2_SEGS = ['a', 'b-1', '1', '+ 2', '1.5', u'\xe9', '0']
 
 INVALID_EXTRA = ['a', 'a/b', '', '//', '/a//b', '/a//', '//a', '/<x>/<x>', '/<x>/a/<x+int>', '/<x:foo>', '/<x?bar>',
                  '/<x!>', '/<x?:int>', '/<x**>', '/<x+?>', '/<x~int>', '/<x:int>//', '/a/<x^>', '/<x:INT>', '/<x:Int>',
@@ -121,8 +121,9 @@ def layer_patterns(kinds, lo, hi):
 
 def _build(clastic, ptext, mode):
     from clastic import Application, Route
-    rt = Route(ptext, _noop, slash_mode=mode)
-    app = Application([rt], slash_mode=mode)
+    # the mode strings are equal to, but not the same objects as, clastic's constants
+    rt = Route(ptext, _noop, slash_mode=common.fresh_str(mode))
+    app = Application([rt], slash_mode=common.fresh_str(mode))
     return app.routes[0]
 
 
@@ -368,16 +369,16 @@ def run_e2e(acc, clastic, shard, nshards, maxel, maxsegs):
                                 (R.STRICT, 'embed-own'), (R.REWRITE, 'embed-own')):
             ep, seen = _mk_endpoint(names)
             if placement == 'app':
-                app = Application([Route(ptext, ep)], slash_mode=mode)
+                app = Application([Route(ptext, ep)], slash_mode=common.fresh_str(mode))
             elif placement == 'embed-own':
                 # the mode is that of an embedded application which keeps its own slashes
                 from clastic import SubApplication
-                inner = Application([Route(ptext, ep)], slash_mode=mode)
-                app = Application([SubApplication('/', inner, inherit_slashes=False)], slash_mode=R.REDIRECT)
+                inner = Application([Route(ptext, ep)], slash_mode=common.fresh_str(mode))
+                app = Application([SubApplication('/', inner, inherit_slashes=False)], slash_mode=common.fresh_str(R.REDIRECT))
             else:
                 # the mode is the route's own: the application around it is in redirect mode
-                app = Application([], slash_mode=R.REDIRECT)
-                app.add(Route(ptext, ep, slash_mode=mode), inherit_slashes=False)
+                app = Application([], slash_mode=common.fresh_str(R.REDIRECT))
+                app.add(Route(ptext, ep, slash_mode=common.fresh_str(mode)), inherit_slashes=False)
             for path in paths:
                 # werkzeug collapses leading slashes before clastic sees the path
                 eff = '/' + path.lstrip('/')
